@@ -3,6 +3,7 @@
   Imports models and specs only (no proof modules, no Mathlib) so it links as a native executable.
 -/
 import Driver.C01
+import Driver.C02
 open Ws.Driver
 
 def dispatch (op : String) (args : List String) (obs : String) : String × String :=
@@ -11,6 +12,10 @@ def dispatch (op : String) (args : List String) (obs : String) : String × Strin
   | "rh" => c01rh args obs
   | "wf" => c01wf args obs
   | "rf" => c01rf args obs
+  | "cipher" => c02cipher args obs
+  | "crd" => c02crd args obs
+  | "cwr" => c02cwr args obs
+  | "mf" => c02mf args obs
   | _ => ("UNKNOWN-OP", "skip")
 
 def handleLine (line : String) : String :=
